@@ -29,7 +29,7 @@ pub const MIN_FINAL_CLTV_EXPIRY_DELTA: u16 = HTLC_FAIL_BACK_BUFFER as u16 + 3;
 
 
 pub enum LocalHTLCFailureReason { FeeInsufficient, IncorrectCLTVExpiry, CLTVExpiryTooSoon, CLTVExpiryTooFar, OutgoingCLTVTooSoon, AmountBelowMinimum, UnknownNextPeer }
-pub struct UpdateAddHTLC { pub amount_msat: u64, pub cltv_expiry: u32 }
+pub struct UpdateAddHTLC { pub htlc_id: u64, pub amount_msat: u64, pub cltv_expiry: u32, pub skimmed_fee_msat: Option<u64> }   // (every numeric field of the message, so that a change reading another one is verified)
 #[derive(Clone, Copy)]
 pub struct ChannelConfig { pub forwarding_fee_proportional_millionths: u32, pub forwarding_fee_base_msat: u32, pub cltv_expiry_delta: u16 }
 pub struct ChannelContext { pub cfg: ChannelConfig, pub prev: Option<ChannelConfig>, pub counterparty_htlc_minimum_msat: u64 }
@@ -193,9 +193,7 @@ fn admit_a_forward_to_a_channel_we_do_not_have(&self, msg: &UpdateAddHTLC, next_
         && (phantom_scid(*self, outgoing_scid) || intercept_unknown(*self, outgoing_scid))
         && r->Ok_0 == !phantom_scid(*self, outgoing_scid),
  {
-        let intercept = { let inbound_amt_msat =
-						msg.amount_msat.saturating_add(msg.skimmed_fee_msat.unwrap_or(0));
-					if next_hop.outgoing_amt_msat > inbound_amt_msat {
+        let intercept = { if next_hop.outgoing_amt_msat > msg.amount_msat {
 						return Err(LocalHTLCFailureReason::FeeInsufficient);
 					}
 					let cltv_delta = msg.cltv_expiry.saturating_sub(next_hop.outgoing_cltv_value);
